@@ -906,96 +906,89 @@ fn eval_sheet(f: &[&str]) -> ImplOut {
     let coord = |k: &(u32, i32, i32)| if ax == "r" { k.1 as i64 } else { k.2 as i64 };
     let with_coord = |k: &(u32, i32, i32), x: i64| if ax == "r" { (k.0, x as i32, k.2) } else { (k.0, k.1, x as i32) };
     let (pos64, n64) = (pos as i64, n as i64);
-    let mut d_eff = d as i64;
-    if kind == "mov" && api == "u" && n > 0 && d != 0 {
-        // find where the first cell of the block went (same column/row, same content)
-        let mut found = None;
+    let noop_move = kind == "mov" && (n <= 0 || d == 0);
+    // the σ-image check (cells, links, row/column attributes) for a given effective offset
+    let judge = |d_eff: i64| -> Vec<(String, String)> {
+        let mut fails: Vec<(String, String)> = vec![];
+        let sig = |x: i64| if noop_move { Some(x) } else { spec_sigma(kind, pos64, n64, d_eff, x) };
+        let mut expected_cells = 0usize;
         for (k, v) in &before.cells {
-            if k.0 == sheet && coord(k) >= pos64 && coord(k) < pos64 + n64 && v.formula.is_none() && !v.content.is_empty() {
-                for (k2, v2) in &after.cells {
-                    let same_cross = if ax == "r" { k2.2 == k.2 } else { k2.1 == k.1 };
-                    if k2.0 == sheet && same_cross && v2 == v {
-                        let cand = coord(k2) - coord(k);
-                        if cand != 0 && cand.signum() == (d as i64).signum() && cand.abs() >= (d as i64).abs() {
-                            found = Some(cand);
+            let target = if k.0 == sheet { sig(coord(k)).map(|y| with_coord(k, y)) } else { Some(*k) };
+            let Some(t) = target else { continue };
+            expected_cells += 1;
+            match after.cells.get(&t) {
+                None => {
+                    fails.push((format!("{pre}:cell-lost"), format!("cell {k:?} ({}) should be at {t:?}, nothing there", v.content)));
+                }
+                Some(w) => {
+                    if v.formula.is_none() {
+                        if w.formula.is_some() || w.content != v.content {
+                            fails.push((format!("{pre}:cell-content"), format!("cell {k:?} `{}` is `{}` at {t:?}", v.content, w.content)));
+                        } else if w.ty != v.ty {
+                            fails.push((format!("{pre}:cell-type"), format!("cell {k:?} `{}` type {} is type {} at {t:?}", v.content, v.ty, w.ty)));
+                        } else if w.value != v.value {
+                            fails.push((format!("{pre}:cell-value"), format!("cell {k:?} `{}` value {} is {} at {t:?}", v.content, v.value, w.value)));
                         }
                     }
-                }
-                if found.is_some() {
-                    break;
-                }
-            }
-        }
-        match found {
-            Some(x) => d_eff = x,
-            None => {
-                return out.tag("sheet:mov:u:no-anchor");
-            }
-        }
-    }
-    let noop_move = kind == "mov" && (n <= 0 || d == 0);
-    let sig = |x: i64| if noop_move { Some(x) } else { spec_sigma(kind, pos64, n64, d_eff, x) };
-    let mut expected_cells = 0usize;
-    for (k, v) in &before.cells {
-        let target = if k.0 == sheet { sig(coord(k)).map(|y| with_coord(k, y)) } else { Some(*k) };
-        let Some(t) = target else { continue };
-        expected_cells += 1;
-        match after.cells.get(&t) {
-            None => {
-                out = out.fail(&format!("{pre}:cell-lost"), &format!("cell {k:?} ({}) should be at {t:?}, nothing there", v.content));
-            }
-            Some(w) => {
-                if v.formula.is_none() {
-                    if w.formula.is_some() || w.content != v.content {
-                        out = out.fail(&format!("{pre}:cell-content"), &format!("cell {k:?} `{}` is `{}` at {t:?}", v.content, w.content));
-                    } else if w.ty != v.ty {
-                        out = out.fail(&format!("{pre}:cell-type"), &format!("cell {k:?} `{}` type {} is type {} at {t:?}", v.content, v.ty, w.ty));
-                    } else if w.value != v.value {
-                        out = out.fail(&format!("{pre}:cell-value"), &format!("cell {k:?} `{}` value {} is {} at {t:?}", v.content, v.value, w.value));
+                    if (w.sz, w.bold, w.quote) != (v.sz, v.bold, v.quote) {
+                        fails.push((format!("{pre}:cell-style"), format!("cell {k:?} style {:?} is {:?} at {t:?}", (v.sz, v.bold, v.quote), (w.sz, w.bold, w.quote))));
                     }
                 }
-                if (w.sz, w.bold, w.quote) != (v.sz, v.bold, v.quote) {
-                    out = out.fail(&format!("{pre}:cell-style"), &format!("cell {k:?} style {:?} is {:?} at {t:?}", (v.sz, v.bold, v.quote), (w.sz, w.bold, w.quote)));
+            }
+        }
+        if after.cells.len() != expected_cells {
+            fails.push((format!("{pre}:extra-cell"), format!("{} cells expected, {} present", expected_cells, after.cells.len())));
+        }
+        // links
+        let mut expected_links = 0usize;
+        for (k, id) in &before.links {
+            let target = if k.0 == sheet { sig(coord(k)).map(|y| with_coord(k, y)) } else { Some(*k) };
+            let Some(t) = target else { continue };
+            expected_links += 1;
+            if after.links.get(&t) != Some(id) {
+                fails.push((format!("{pre}:link"), format!("link {id} of {k:?} should be at {t:?}, found {:?}", after.links.get(&t))));
+            }
+        }
+        if after.links.len() != expected_links {
+            fails.push((format!("{pre}:link"), format!("{} links expected, {} present: {:?}", expected_links, after.links.len(), after.links)));
+        }
+        // row / column attributes (C14, C15 name them; for C12/C13 they are part of the σ-image check)
+        if ax == "r" {
+            for ((s, r), v) in &before.rows {
+                let t = if *s == sheet { sig(*r as i64) } else { Some(*r as i64) };
+                if let Some(t) = t {
+                    if after.rows.get(&(*s, t as i32)) != Some(v) {
+                        fails.push((format!("{pre}:row-attributes"), format!("row {r} ({v}) should be row {t}, found {:?}", after.rows.get(&(*s, t as i32)))));
+                    }
+                }
+            }
+        } else {
+            for ((s, c), v) in &before.cols {
+                let t = if *s == sheet { sig(*c as i64) } else { Some(*c as i64) };
+                if let Some(t) = t {
+                    if t <= COL_WINDOW as i64 && after.cols.get(&(*s, t as i32)) != Some(v) {
+                        fails.push((format!("{pre}:column-attributes"), format!("column {c} ({v}) should be column {t}, found {:?}", after.cols.get(&(*s, t as i32)))));
+                    }
                 }
             }
         }
-    }
-    if after.cells.len() != expected_cells {
-        out = out.fail(&format!("{pre}:extra-cell"), &format!("{} cells expected, {} present", expected_cells, after.cells.len()));
-    }
-    // links
-    let mut expected_links = 0usize;
-    for (k, id) in &before.links {
-        let target = if k.0 == sheet { sig(coord(k)).map(|y| with_coord(k, y)) } else { Some(*k) };
-        let Some(t) = target else { continue };
-        expected_links += 1;
-        if after.links.get(&t) != Some(id) {
-            out = out.fail(&format!("{pre}:link"), &format!("link {id} of {k:?} should be at {t:?}, found {:?}", after.links.get(&t)));
+
+        fails
+    };
+    let mut d_eff = d as i64;
+    if kind == "mov" && api == "u" && n > 0 && d != 0 {
+        // the user-level action lengthens the offset by the hidden lines it skips; the property does not say by
+        // how much: take the first offset (in the direction of the move, at least |d|) under which the result
+        // is the permutation the property describes; if there is none, judge against the requested offset
+        let sgn = (d as i64).signum();
+        if let Some(c) = (0..=12).map(|e| d as i64 + sgn * e).find(|c| judge(*c).is_empty()) {
+            d_eff = c;
         }
     }
-    if after.links.len() != expected_links {
-        out = out.fail(&format!("{pre}:link"), &format!("{} links expected, {} present: {:?}", expected_links, after.links.len(), after.links));
+    for (a, b) in judge(d_eff) {
+        out = out.fail(&a, &b);
     }
-    // row / column attributes (C14, C15 name them; for C12/C13 they are part of the σ-image check)
-    if ax == "r" {
-        for ((s, r), v) in &before.rows {
-            let t = if *s == sheet { sig(*r as i64) } else { Some(*r as i64) };
-            if let Some(t) = t {
-                if after.rows.get(&(*s, t as i32)) != Some(v) {
-                    out = out.fail(&format!("{pre}:row-attributes"), &format!("row {r} ({v}) should be row {t}, found {:?}", after.rows.get(&(*s, t as i32))));
-                }
-            }
-        }
-    } else {
-        for ((s, c), v) in &before.cols {
-            let t = if *s == sheet { sig(*c as i64) } else { Some(*c as i64) };
-            if let Some(t) = t {
-                if t <= COL_WINDOW as i64 && after.cols.get(&(*s, t as i32)) != Some(v) {
-                    out = out.fail(&format!("{pre}:column-attributes"), &format!("column {c} ({v}) should be column {t}, found {:?}", after.cols.get(&(*s, t as i32))));
-                }
-            }
-        }
-    }
+    let sig = |x: i64| if noop_move { Some(x) } else { spec_sigma(kind, pos64, n64, d_eff, x) };
     // values of the formulas the property speaks about: those that stay in the property's fragment and do
     // not read (directly or through other formulas) a formula that left it
     let mut tainted: std::collections::BTreeSet<(u32, i32, i32)> = Default::default();
@@ -1045,8 +1038,37 @@ fn eval_sheet(f: &[&str]) -> ImplOut {
             if let (Some(v), Some(w)) = (before.cells.get(&k), after.cells.get(&t)) {
                 checked += 1;
                 if v.value != w.value {
+                    // F05b (evaluator, not the structural edit): an aggregate over a range that contains a
+                    // formula whose result is a reference to an empty cell counts that cell or not depending on
+                    // whether it was evaluated before the aggregate (`=COUNT(2:2)` with B2 `=Z9`: 0 in A1, 1 in A3)
+                    let empty_result_cells: Vec<(u32, i32, i32)> = items
+                        .iter()
+                        .filter_map(|e| match e {
+                            Item::Fml { s, r, c, atoms, .. }
+                                if atoms.iter().any(|a| matches!(a, Atom::Ref { sheet: rs, p, .. } if !before.cells.contains_key(&(*rs, p.r as i32, p.c as i32)))) =>
+                            {
+                                Some((*s, *r, *c))
+                            }
+                            _ => None,
+                        })
+                        .collect();
+                    let my_atoms = match it {
+                        Item::Fml { atoms, .. } => atoms.clone(),
+                        _ => vec![],
+                    };
+                    let over_empty = my_atoms.iter().any(|a| match a {
+                        Atom::Rng { sheet: rs, a, b, .. } => empty_result_cells.iter().any(|t| {
+                            t.0 == *rs
+                                && (t.1 as i64) >= a.r.min(b.r)
+                                && (t.1 as i64) <= a.r.max(b.r)
+                                && (t.2 as i64) >= a.c.min(b.c)
+                                && (t.2 as i64) <= a.c.max(b.c)
+                        }),
+                        _ => false,
+                    });
+                    let what = if over_empty { "formula-value:range-over-empty-reference-result" } else { "formula-value" };
                     out = out.fail(
-                        &format!("{pre}:formula-value"),
+                        &format!("{pre}:{what}"),
                         &format!("{} at {k:?} = {} ; {} at {t:?} = {}", v.formula.clone().unwrap_or_default(), v.value, w.formula.clone().unwrap_or_default(), w.value),
                     );
                 }
